@@ -35,7 +35,8 @@ fn logical(seed: u64, i: usize) -> Vec<Node> {
     let mut rng = StdRng::seed_from_u64(seed.wrapping_mul(1_000_003).wrapping_add(i as u64));
     // every 20th case is a big one: hundreds of instances of a few unknown classes, dozens of SharedStrings
     if i % 20 == 19 {
-        let n = rng.gen_range(180..320);
+        // (and every 100th a very big one: more than 1024 instances of one class, more than 4096 in all)
+        let n = if i % 100 == 99 { rng.gen_range(4200..5200) } else { rng.gen_range(180..320) };
         let mut nodes: Vec<Node> = Vec::new();
         for k in 0..n {
             let parent = if k == 0 || rng.gen_bool(0.4) { usize::MAX } else { rng.gen_range(0..k) };
